@@ -62,6 +62,21 @@ end Cx
 abbrev V (α : Type) := Nat → α
 abbrev Mx (α : Type) := Nat → Nat → α
 
+/-- a materialised vector (what closures consume and return).  The `size` field is informative
+    only (it also keeps the structure from being compiled to a bare function, see `trunc`). -/
+structure Vc (α : Type) where
+  size : Nat
+  get : V α
+
+/-- a materialised matrix (class payloads) -/
+structure Mc (α : Type) where
+  rows : Nat
+  cols : Nat
+  get : Mx α
+
+instance {α : Type} : CoeFun (Vc α) (fun _ => Nat → α) := ⟨Vc.get⟩
+instance {α : Type} : CoeFun (Mc α) (fun _ => Nat → Nat → α) := ⟨Mc.get⟩
+
 section vec
 variable {α : Type} [Add α] [Sub α] [Mul α] [Div α] [Neg α] [Zero α] [One α] [HasConj α] [HasRe α]
 
@@ -70,30 +85,39 @@ def sumTo : Nat → (Nat → α) → α
   | 0, _ => 0
   | n + 1, f => sumTo n f + f n
 
-/-- canonical vector of size `n`: zero beyond the size (logical definition) -/
-def trunc (n : Nat) (f : V α) : V α := fun i => if i < n then f i else 0
+/-- canonical vector of size `n`: zero beyond the size (logical definition).  The result is a
+    structure so that computing it is an *evaluation* (a definition returning a bare function is
+    eta-expanded by the compiler and would be recomputed at every index). -/
+def trunc (n : Nat) (f : V α) : Vc α := ⟨n, fun i => if i < n then f i else 0⟩
 
 /-- canonical `m × n` matrix -/
-def truncM (m n : Nat) (A : Mx α) : Mx α := fun i j => if i < m ∧ j < n then A i j else 0
+def truncM (m n : Nat) (A : Mx α) : Mc α :=
+  ⟨m, n, fun i j => if i < m ∧ j < n then A i j else 0⟩
 
 def ofArr (a : Array α) : V α := fun i => if h : i < a.size then a[i] else 0
 
 /-- run-time version of `trunc`: materialise once in an array (keeps execution polynomial) -/
-def truncImpl (n : Nat) (f : V α) : V α := ofArr (Array.ofFn (n := n) (fun i => f i.val))
+def truncImpl (n : Nat) (f : V α) : Vc α := ⟨n, ofArr (Array.ofFn (n := n) (fun i => f i.val))⟩
 
 @[csimp] theorem trunc_eq_truncImpl : @trunc = @truncImpl := by
-  funext α _ n f i
-  unfold trunc truncImpl ofArr
+  funext α _ n f
+  unfold trunc truncImpl
+  congr 1
+  funext i
+  unfold ofArr
   by_cases h : i < n <;> simp [h]
 
 def ofArr2 (n : Nat) (a : Array α) : Mx α := fun i j => if j < n then ofArr a (i * n + j) else 0
 
-def truncMImpl (m n : Nat) (A : Mx α) : Mx α :=
-  ofArr2 n (Array.ofFn (n := m * n) (fun k => A (k.val / n) (k.val % n)))
+def truncMImpl (m n : Nat) (A : Mx α) : Mc α :=
+  ⟨m, n, ofArr2 n (Array.ofFn (n := m * n) (fun k => A (k.val / n) (k.val % n)))⟩
 
 @[csimp] theorem truncM_eq_truncMImpl : @truncM = @truncMImpl := by
-  funext α _ m n A i j
-  unfold truncM truncMImpl ofArr2 ofArr
+  funext α _ m n A
+  unfold truncM truncMImpl
+  congr 1
+  funext i j
+  unfold ofArr2 ofArr
   by_cases hj : j < n
   · by_cases hi : i < m
     · have hlt : i * n + j < m * n := by
@@ -130,6 +154,25 @@ def matT (A : Mx α) : Mx α := fun i j => A j i
 def matConj (A : Mx α) : Mx α := fun i j => conj (A i j)
 
 def basis (j : Nat) : V α := fun i => if i = j then 1 else 0
+
+/-! Combinators from which every closure is built.  They are `@[noinline]` functions of
+    *materialised* arguments: their operands are evaluated (once) before the call.  (A `let`
+    whose only use is inside a `fun i => …` is moved into that lambda by the compiler and would
+    be re-evaluated at every index — exponential in the depth of an expression.) -/
+
+@[noinline] def vtrunc (n : Nat) (x : Vc α) : Vc α := trunc n x.get
+@[noinline] def vmap (n : Nat) (f : α → α) (u : Vc α) : Vc α := trunc n (fun i => f (u i))
+@[noinline] def vzip (n : Nat) (f : α → α → α) (u v : Vc α) : Vc α :=
+  trunc n (fun i => f (u i) (v i))
+/-- `A · x` (`A` with `n` columns, result of size `m`) -/
+@[noinline] def vmulVec (m n : Nat) (A : Mc α) (x : Vc α) : Vc α := trunc m (mulVec n A.get x.get)
+/-- `Aᴴ · y` (`A` with `m` rows, result of size `n`) -/
+@[noinline] def vmulVecH (m n : Nat) (A : Mc α) (y : Vc α) : Vc α := trunc n (mulVecH m A.get y.get)
+/-- `Aᵀ · y` -/
+@[noinline] def vmulVecT (m n : Nat) (A : Mc α) (y : Vc α) : Vc α := trunc n (mulVecT m A.get y.get)
+/-- `out[i] = d[pd i] * x[px i]` (broadcast product) -/
+@[noinline] def vbmul (m : Nat) (pd px : Nat → Nat) (d x : Vc α) : Vc α :=
+  trunc m (fun i => d (pd i) * x (px i))
 
 end vec
 
@@ -293,25 +336,25 @@ def Cfg.legacy : Cfg := ⟨false, false, false, false, false, false⟩
 structure Obj (α : Type) where
   md : Meta
   /-- `_eval` (what `__call__` computes on an array of the input shape) -/
-  eval : V α → V α
+  eval : Vc α → Vc α
   /-- `_adj` -/
-  adj : V α → V α
+  adj : Vc α → Vc α
   /-- `Diagonal`: flattened `_diagonal`; `ScaledIdentity/Identity`: `dat 0 = _diagonal` -/
-  dat : V α
+  dat : Vc α
   /-- `MatrixOperator`: `A` -/
-  mat : Mx α
+  mat : Mc α
   evalDt : DtFn
   adjDt : DtFn
 
 /-- the two closures, as handed to users of the model (`run`) -/
 structure Impl (α : Type) where
-  eval : V α → V α
-  adj : V α → V α
+  eval : Vc α → Vc α
+  adj : Vc α → Vc α
 
 section ops
 variable {α : Type} [Add α] [Sub α] [Mul α] [Div α] [Neg α] [Zero α] [One α] [HasConj α] [HasRe α]
 
-instance : Inhabited (Impl α) := ⟨⟨fun _ _ => 0, fun _ _ => 0⟩⟩
+instance : Inhabited (Impl α) := ⟨⟨fun _ => ⟨0, fun _ => 0⟩, fun _ => ⟨0, fun _ => 0⟩⟩⟩
 
 namespace Obj
 
@@ -333,23 +376,21 @@ def adjCallDt (o : Obj α) : DtFn := fun dy =>
 
 end Obj
 
-def zeroV : V α := fun _ => 0
-def zeroM : Mx α := fun _ _ => 0
+def zeroV : Vc α := ⟨0, fun _ => 0⟩
+def zeroM : Mc α := ⟨0, 0, fun _ _ => 0⟩
+def basisC (j : Nat) : Vc α := ⟨j + 1, basis j⟩
 
 /-- dense matrix of a closure, column by column (what transposition by JAX sees) -/
-def autoMat (n m : Nat) (eval : V α → V α) : Mx α := truncM m n (fun i j => eval (basis j) i)
+def autoMat (n m : Nat) (eval : Vc α → Vc α) : Mc α := truncM m n (fun i j => eval (basisC j) i)
 
 /-- `LinearOperator._set_adjoint` = `scico.linear_adjoint(self.__call__, zeros(input_shape, input_dtype))`
     under the contract of `jax.linear_transpose`:
     complex primal → conjugate transpose; real primal with complex value → real part of the
     conjugate transpose; real → transpose. -/
-def autoAdjWith (n m : Nat) (inC outC : Bool) (M : Mx α) : V α → V α := fun y =>
-  let y' := trunc m y
-  if inC then trunc n (mulVecH m M y')
-  else if outC then
-    let r := mulVecH m M y'
-    trunc n (fun j => re (r j))
-  else trunc n (mulVecT m M y')
+def autoAdjWith (n m : Nat) (inC outC : Bool) (M : Mc α) : Vc α → Vc α := fun y =>
+  if inC then vmulVecH m n M (vtrunc m y)
+  else if outC then vmap n re (vmulVecH m n M (vtrunc m y))
+  else vmulVecT m n M (vtrunc m y)
 
 /-- dtype transfer of the automatically created adjoint: the cotangent must have exactly the
     dtype the forward map returns; the result has the primal dtype -/
@@ -359,19 +400,19 @@ def autoAdjDt (inDt : DT) (evalDt : DtFn) : DtFn := fun dy =>
   | .ok od => if dy = od then .ok inDt else .error .type
 
 /-- `Operator(input_shape, output_shape, eval_fn, input_dtype, output_dtype)` -/
-def mkOp (inSh outSh : Shape) (inDt outDt : DT) (eval : V α → V α) (evalDt : DtFn) : Obj α :=
+def mkOp (inSh outSh : Shape) (inDt outDt : DT) (eval : Vc α → Vc α) (evalDt : DtFn) : Obj α :=
   { md := ⟨.op, inSh, outSh, inDt, outDt, inSh, inDt⟩
     eval := eval, adj := fun _ => zeroV, dat := zeroV, mat := zeroM
     evalDt := evalDt, adjDt := fun _ => .error .other }
 
 /-- `LinearOperator(…, eval_fn, adj_fn, …)` (also `ComposedLinearOperator` with `cls := .composed`) -/
-def mkLin (cls : Cls) (inSh outSh : Shape) (inDt outDt : DT) (eval adj : V α → V α)
+def mkLin (cls : Cls) (inSh outSh : Shape) (inDt outDt : DT) (eval adj : Vc α → Vc α)
     (evalDt adjDt : DtFn) : Obj α :=
   { md := ⟨cls, inSh, outSh, inDt, outDt, inSh, inDt⟩
     eval := eval, adj := adj, dat := zeroV, mat := zeroM, evalDt := evalDt, adjDt := adjDt }
 
 /-- `LinearOperator(…, eval_fn)` without `adj_fn`: adjoint created by `_set_adjoint` -/
-def mkLinAuto (inSh outSh : Shape) (inDt outDt : DT) (eval : V α → V α) (evalDt : DtFn) : Obj α :=
+def mkLinAuto (inSh outSh : Shape) (inDt outDt : DT) (eval : Vc α → Vc α) (evalDt : DtFn) : Obj α :=
   let M := autoMat inSh.size outSh.size eval
   let outC := match evalDt inDt with
     | .ok d => d.isComplex
@@ -385,8 +426,8 @@ def mkLinAuto (inSh outSh : Shape) (inDt outDt : DT) (eval : V α → V α) (eva
 def mkMat (m n : Nat) (dt : DT) (A : Mx α) : Obj α :=
   let A' := truncM m n A
   { md := ⟨.matrix, .plain [n], .plain [m], dt, dt, .plain [n], dt⟩
-    eval := fun x => let x' := trunc n x; trunc m (mulVec n A' x')
-    adj := fun y => let y' := trunc m y; trunc n (mulVecH m A' y')
+    eval := fun x => vmulVec m n A' (vtrunc n x)
+    adj := fun y => vmulVecH m n A' (vtrunc m y)
     dat := zeroV, mat := A'
     evalDt := fun dx => .ok (resultType dt dx)
     adjDt := fun dy => .ok (resultType dt dy) }
@@ -423,9 +464,8 @@ def mkDiag (cfg : Cfg) (d : V α) (dsh : Shape) (ddt : DT) (inSh : Shape) (inDt 
     let n := inSh.size
     let m := outSh.size
     let d' := trunc dsh.size d
-    let eval : V α → V α := fun x =>
-      let x' := trunc n x
-      trunc m (fun i => d' (bidxS outSh dsh i) * x' (bidxS outSh inSh i))
+    let eval : Vc α → Vc α := fun x =>
+      vbmul m (bidxS outSh dsh) (bidxS outSh inSh) d' (vtrunc n x)
     let evalDt : DtFn := fun dx => .ok (resultType ddt dx)
     let outDt := if cfg.diagOutDt then resultType ddt inDt else inDt
     let M := autoMat n m eval
@@ -440,30 +480,30 @@ def mkDiag (cfg : Cfg) (d : V α) (dsh : Shape) (ddt : DT) (inSh : Shape) (inDt 
 def mkSid (cfg : Cfg) (c : α) (sk : SK) (sh : Shape) (inDt : DT) : Obj α :=
   let ddt := resultTypeS inDt sk
   let n := sh.size
-  let eval : V α → V α := fun x => let x' := trunc n x; trunc n (fun i => c * x' i)
+  let eval : Vc α → Vc α := fun x => vmap n (fun t => c * t) (vtrunc n x)
   let evalDt : DtFn := fun dx => .ok (resultType ddt dx)
   let outDt := if cfg.diagOutDt then resultType ddt inDt else inDt
   let M := autoMat n n eval
   { md := ⟨.scaledId, sh, sh, inDt, outDt, sh, ddt⟩
     eval := eval
     adj := autoAdjWith n n inDt.isComplex (resultType ddt inDt).isComplex M
-    dat := fun i => if i = 0 then c else 0, mat := zeroM
+    dat := ⟨1, fun i => if i = 0 then c else 0⟩, mat := zeroM
     evalDt := evalDt, adjDt := autoAdjDt inDt evalDt }
 
 /-- `Identity(input_shape, input_dtype)` (`_eval` returns its argument) -/
 def mkIdent (sh : Shape) (inDt : DT) : Obj α :=
   let n := sh.size
-  let eval : V α → V α := fun x => trunc n x
+  let eval : Vc α → Vc α := fun x => vtrunc n x
   let evalDt : DtFn := fun dx => .ok dx
   let M := autoMat n n eval
   { md := ⟨.ident, sh, sh, inDt, inDt, sh, inDt⟩
     eval := eval
     adj := autoAdjWith n n inDt.isComplex inDt.isComplex M
-    dat := fun i => if i = 0 then 1 else 0, mat := zeroM
+    dat := ⟨1, fun i => if i = 0 then 1 else 0⟩, mat := zeroM
     evalDt := evalDt, adjDt := autoAdjDt inDt evalDt }
 
 /-- the `diagonal` property: array, its shape, its dtype -/
-def Obj.diagonal (o : Obj α) : V α × Shape × DT :=
+def Obj.diagonal (o : Obj α) : Vc α × Shape × DT :=
   match o.md.cls with
   | .scaledId => (trunc o.n (fun _ => o.dat 0), o.md.inShape, resultType o.md.datDt o.md.inDt)
   | .ident => (trunc o.n (fun _ => 1), o.md.inShape, o.md.inDt)
@@ -477,15 +517,15 @@ def pm (sub : Bool) (a b : α) : α := if sub then a - b else a + b
 def opAddSub (sub : Bool) (a b : Obj α) : Except Err (Obj α) :=
   if a.sameShape b then
     .ok (mkOp a.md.inShape a.md.outShape a.md.inDt (resultType a.md.outDt b.md.outDt)
-      (fun x => let u := a.eval x; let v := b.eval x; trunc a.m (fun i => pm sub (u i) (v i)))
+      (fun x => vzip a.m (pm sub) (a.eval x) (b.eval x))
       (fun dx => do let da ← a.evalDt dx; let db ← b.evalDt dx; pure (resultType da db)))
   else .error .shape
 
 /-- `LinearOperator.__add__ / __sub__` (unwrapped) -/
 def linAddSub (sub : Bool) (a b : Obj α) : Obj α :=
   mkLin .linop a.md.inShape a.md.outShape a.md.inDt (resultType a.md.outDt b.md.outDt)
-    (fun x => let u := a.eval x; let v := b.eval x; trunc a.m (fun i => pm sub (u i) (v i)))
-    (fun y => let u := a.adj y; let v := b.adj y; trunc a.n (fun i => pm sub (u i) (v i)))
+    (fun x => vzip a.m (pm sub) (a.eval x) (b.eval x))
+    (fun y => vzip a.n (pm sub) (a.adj y) (b.adj y))
     (fun dx => do let da ← a.evalDt dx; let db ← b.evalDt dx; pure (resultType da db))
     (fun dy => do let da ← a.adjCallDt dy; let db ← b.adjCallDt dy; pure (resultType da db))
 
@@ -493,14 +533,14 @@ def linAddSub (sub : Bool) (a b : Obj α) : Obj α :=
 def opMul (a : Obj α) (c : Scal α) : Except Err (Obj α) :=
   if c.kind.isScalarEquiv then
     .ok (mkOp a.md.inShape a.md.outShape a.md.inDt (resultTypeS a.md.outDt c.kind.sk)
-      (fun x => let u := a.eval x; trunc a.m (fun i => c.val * u i))
+      (fun x => vmap a.m (fun t => c.val * t) (a.eval x))
       (fun dx => do let d ← a.evalDt dx; pure (resultTypeS d c.kind.sk)))
   else .error .type
 
 def opDiv (a : Obj α) (c : Scal α) : Except Err (Obj α) :=
   if c.kind.isScalarEquiv then
     .ok (mkOp a.md.inShape a.md.outShape a.md.inDt (resultTypeS a.md.outDt c.kind.sk)
-      (fun x => let u := a.eval x; trunc a.m (fun i => u i / c.val))
+      (fun x => vmap a.m (fun t => t / c.val) (a.eval x))
       (fun dx => do let d ← a.evalDt dx; pure (resultTypeS d c.kind.sk)))
   else .error .type
 
@@ -508,8 +548,8 @@ def opDiv (a : Obj α) (c : Scal α) : Except Err (Obj α) :=
 def linMul (a : Obj α) (c : Scal α) : Except Err (Obj α) :=
   if c.kind.isScalarEquiv then
     .ok (mkLin .linop a.md.inShape a.md.outShape a.md.inDt (resultTypeS a.md.outDt c.kind.sk)
-      (fun x => let u := a.eval x; trunc a.m (fun i => c.val * u i))
-      (fun y => let u := a.adj y; trunc a.n (fun i => conj c.val * u i))
+      (fun x => vmap a.m (fun t => c.val * t) (a.eval x))
+      (fun y => vmap a.n (fun t => conj c.val * t) (a.adj y))
       (fun dx => do let d ← a.evalDt dx; pure (resultTypeS d c.kind.sk))
       (fun dy => do let d ← a.adjCallDt dy; pure (resultTypeS d c.kind.sk)))
   else .error .type
@@ -517,8 +557,8 @@ def linMul (a : Obj α) (c : Scal α) : Except Err (Obj α) :=
 def linDiv (a : Obj α) (c : Scal α) : Except Err (Obj α) :=
   if c.kind.isScalarEquiv then
     .ok (mkLin .linop a.md.inShape a.md.outShape a.md.inDt (resultTypeS a.md.outDt c.kind.sk)
-      (fun x => let u := a.eval x; trunc a.m (fun i => u i / c.val))
-      (fun y => let u := a.adj y; trunc a.n (fun i => u i / conj c.val))
+      (fun x => vmap a.m (fun t => t / c.val) (a.eval x))
+      (fun y => vmap a.n (fun t => t / conj c.val) (a.adj y))
       (fun dx => do let d ← a.evalDt dx; pure (resultTypeS d c.kind.sk))
       (fun dy => do let d ← a.adjCallDt dy; pure (resultTypeS d c.kind.sk)))
   else .error .type
@@ -544,7 +584,7 @@ def linComp (a b : Obj α) : Except Err (Obj α) :=
       (fun dx => do let d ← b.evalDt dx; a.evalDt d)
       (fun dz => do let d ← a.adjCallDt dz; b.adjCallDt d))
 
-def conjV (k : Nat) (v : V α) : V α := trunc k (fun i => conj (v i))
+def conjV (k : Nat) (v : Vc α) : Vc α := vmap k conj v
 
 /-- `LinearOperator.T` -/
 def linT (a : Obj α) : Obj α :=
@@ -570,7 +610,7 @@ def linConj (a : Obj α) : Obj α :=
 
 /-- `LinearOperator.gram_op` (`_gram = lambda x: self.adj(self(x))`) -/
 def linGram (cfg : Cfg) (a : Obj α) : Obj α :=
-  let g : V α → V α := fun x => a.adj (a.eval x)
+  let g : Vc α → Vc α := fun x => a.adj (a.eval x)
   let gDt : DtFn := fun dx => do let d ← a.evalDt dx; a.adjCallDt d
   mkLin .linop a.md.inShape a.md.inShape a.md.inDt
     (if cfg.gramDt then a.md.inDt else a.md.outDt) g g gDt gDt
@@ -667,7 +707,7 @@ def matTop (a : Obj α) : Obj α := rematrix a.n a.m a.md.inDt (fun i j => a.mat
 def matHop (a : Obj α) : Obj α := rematrix a.n a.m a.md.inDt (fun i j => conj (a.mat j i))
 def matConjOp (a : Obj α) : Obj α := rematrix a.m a.n a.md.inDt (fun i j => conj (a.mat i j))
 def matGram (a : Obj α) : Obj α :=
-  rematrix a.n a.n a.md.inDt (matMul a.m (fun i j => conj (a.mat j i)) a.mat)
+  rematrix a.n a.n a.md.inDt (matMul a.m (fun i j => conj (a.mat j i)) a.mat.get)
 
 /-- `_wrap_add_sub_matrix` for an operator operand -/
 def matAddSub (sub : Bool) (a b : Obj α) : Except Err (Obj α) :=
@@ -727,7 +767,7 @@ def matCall (cfg : Cfg) (a b : Obj α) : Except Err (Obj α) :=
     if a.md.inShape = b.md.outShape then
       if b.md.cls = .ident then .ok a
       else if b.md.cls = .matrix then
-        .ok (rematrix a.m b.n (resultType a.md.inDt b.md.inDt) (matMul a.n a.mat b.mat))
+        .ok (rematrix a.m b.n (resultType a.md.inDt b.md.inDt) (matMul a.n a.mat.get b.mat.get))
       else
         let inDt := if cfg.matCall then b.md.inDt else a.md.inDt
         let evalDt : DtFn := fun dx => do let d ← b.evalDt dx; a.evalDt d
@@ -936,15 +976,14 @@ def mkLinLeaf (inSh outSh : Shape) (inDt gDt : DT) (hasAdj : Bool) (G : Mx α) :
   let n := inSh.size
   let m := outSh.size
   let G' := truncM m n G
-  let eval : V α → V α := fun x => let x' := trunc n x; trunc m (mulVec n G' x')
+  let eval : Vc α → Vc α := fun x => vmulVec m n G' (vtrunc n x)
   let evalDt : DtFn := fun dx => .ok (resultType gDt dx)
   let outDt := resultType gDt inDt
   if hasAdj then
     mkLin .linop inSh outSh inDt outDt eval
       (fun y =>
-        let y' := trunc m y
-        let r := mulVecH m G' y'
-        if inDt.isComplex then trunc n r else trunc n (fun j => re (r j)))
+        if inDt.isComplex then vmulVecH m n G' (vtrunc m y)
+        else vmap n re (vmulVecH m n G' (vtrunc m y)))
       evalDt
       (fun dy => .ok (if inDt.isComplex then resultType gDt dy else (resultType gDt dy).toReal))
   else mkLinAuto inSh outSh inDt outDt eval evalDt
@@ -955,7 +994,7 @@ def mkNonlinLeaf (inSh outSh : Shape) (inDt gDt : DT) (G : Mx α) : Obj α :=
   let m := outSh.size
   let G' := truncM m n G
   mkOp inSh outSh inDt (resultType gDt inDt)
-    (fun x => let x' := trunc n x; let u := mulVec n G' x'; trunc m (fun i => u i * u i))
+    (fun x => vmap m (fun t => t * t) (vmulVec m n G' (vtrunc n x)))
     (fun dx => .ok (resultType gDt dx))
 
 /-- non-operator operand where an operator is required / operator where a scalar is required, for
@@ -1035,28 +1074,28 @@ def dims : LExpr α → Nat × Nat
 
 /-- the dense matrix an expression denotes (meaningful for expressions without `nonlin` leaves) -/
 def den : LExpr α → Mx α
-  | .mat m n _ A => truncM m n A
+  | .mat m n _ A => (truncM m n A).get
   | .diag dsh _ inSh? _ d =>
     let inSh := inSh?.getD dsh
     match bshapeS inSh dsh with
     | .ok out => fun i j =>
         if i < out.size ∧ j < inSh.size ∧ bidxS out inSh i = j
-        then trunc dsh.size d (bidxS out dsh i) else 0
-    | .error _ => zeroM
+        then (trunc dsh.size d).get (bidxS out dsh i) else 0
+    | .error _ => fun _ _ => 0
   | .scaledId c _ sh _ => fun i j => if i = j ∧ i < sh.size then c else 0
   | .ident sh _ => fun i j => if i = j ∧ i < sh.size then 1 else 0
-  | .lin inSh outSh _ _ _ G => truncM outSh.size inSh.size G
-  | .nonlin _ _ _ _ _ => zeroM
+  | .lin inSh outSh _ _ _ G => (truncM outSh.size inSh.size G).get
+  | .nonlin _ _ _ _ _ => fun _ _ => 0
   | .add a b => fun i j => den a i j + den b i j
   | .sub a b => fun i j => den a i j - den b i j
   | .neg a => fun i j => - den a i j
   | .smulL c a => fun i j => c.val * den a i j
   | .smulR a c => fun i j => c.val * den a i j
   | .sdiv a c => fun i j => den a i j / c.val
-  | .rdiv c a => truncM (dims a).1 (dims a).2 (fun i j => c.val / den a i j)
+  | .rdiv c a => (truncM (dims a).1 (dims a).2 (fun i j => c.val / den a i j)).get
   | .addS sub rev a c =>
-    truncM (dims a).1 (dims a).2
-      (fun i j => if rev then pm sub c.val (den a i j) else pm sub (den a i j) c.val)
+    (truncM (dims a).1 (dims a).2
+      (fun i j => if rev then pm sub c.val (den a i j) else pm sub (den a i j) c.val)).get
   | .had div a b => fun i j => if div then den a i j / den b i j else den a i j * den b i j
   | .comp a b => matMul (dims a).2 (den a) (den b)
   | .matmul a b => matMul (dims a).2 (den a) (den b)
@@ -1069,8 +1108,8 @@ def den : LExpr α → Mx α
     `(A∘B)(x) = A(B(x))`; transposes / Gram operators act through the dense matrix -/
 def denF : LExpr α → V α → V α
   | .nonlin inSh outSh _ _ G => fun x =>
-    let u := mulVec inSh.size (truncM outSh.size inSh.size G) x
-    trunc outSh.size (fun i => u i * u i)
+    let u := mulVec inSh.size (truncM outSh.size inSh.size G).get x
+    (trunc outSh.size (fun i => u i * u i)).get
   | .add a b => fun x i => denF a x i + denF b x i
   | .sub a b => fun x i => denF a x i - denF b x i
   | .neg a => fun x i => - denF a x i
